@@ -213,6 +213,8 @@ def main() -> int:
     # stream) and is recorded in the evidence.
     tie_modules = list(getattr(P, "TIE_MODULES", []))
     tie_lost = None
+    extra_modules = list(getattr(P, "EXTRA_MODULES", []))  # see below: built + audited, problems are notes only
+    extra_report = []
     driver_name = getattr(P, "DRIVER", None)
     axioms = {}
     theorems = []
@@ -262,6 +264,37 @@ def main() -> int:
               else:
                   tie_lost = (tie_lost or "") + f"{tm} no longer builds (translated source != hand model, or not translatable):\n" + "\n".join(
                       l for l in log.splitlines() if not l.startswith("✔") and "Built" not in l)[-1500:] + "\n"
+
+          # EXTRA_MODULES (optional; e.g. the end-to-end capstone `AcnProofs.Capstone`): cross-property compositions
+          # that belong to no single property.  They are built and audited together with this check, but whatever
+          # goes wrong with them (no longer builds because ANOTHER property's file changed, non-standard axiom,
+          # forbidden token) is a NOTE in the evidence (`coverage.extra_modules`) — never a violation of this
+          # property, never a forced failing-input search, and their theorems are not counted as obligations.
+          for xm in extra_modules:
+              rec = {"module": xm, "built": False, "theorems": [], "axioms_used": [], "problems": []}
+              extra_report.append(rec)
+              try:
+                  ok, log = C.lake_build([xm])
+                  rec["built"] = bool(ok)
+                  if not ok:
+                      rec["problems"].append("does not build: " + "\n".join(
+                          l for l in log.splitlines() if not l.startswith("✔") and "Built" not in l)[-1200:])
+                      continue
+                  ths = C.theorems_in(xm)
+                  xax, xlog = C.audit_axioms(pid + "_extra", [xm], ths)
+                  rec["theorems"] = ths
+                  rec["axioms_used"] = sorted({a for v in xax.values() for a in v})
+                  xbad = {t: a for t, a in xax.items() if not set(a) <= C.ALLOWED_AXIOMS}
+                  if xbad:
+                      rec["problems"].append(f"non-standard axioms: {xbad}")
+                  xunseen = [t for t in ths if t not in xax]
+                  if xunseen:
+                      rec["problems"].append(f"axiom audit did not report on {xunseen}: {xlog[-600:]}")
+                  xforb = C.grep_forbidden([xm])
+                  if xforb:
+                      rec["problems"].append(f"forbidden tokens: {xforb}")
+              except Exception as e:  # noqa: BLE001
+                  rec["problems"].append(f"could not be built / audited: {type(e).__name__}: {e}")
 
           def _broken(msg):
               # with a triaged build failure the build text is kept and the new problem is unexplained
@@ -368,6 +401,9 @@ def main() -> int:
         tie_lost = (tie_lost or "") + "\n".join(pinned_blocks)
     if tie_lost:
         notes.append("T1c tie lost (not a violation by itself; failing-input search forced): " + tie_lost[:600])
+    for rec in extra_report:
+        if rec["problems"]:
+            notes.append(f"EXTRA module {rec['module']} (not part of this property; never a violation): " + "; ".join(rec["problems"])[:600])
     if (proof_broken or disagreements or tie_lost):
         # failing-input search (DESIGN §2.2): bigger budget, oracle on the implementation
         rng2 = random.Random(seed * 7919 + 5)
@@ -499,6 +535,7 @@ def main() -> int:
             "notes": notes,
             "proof_broken": proof_broken,
             "code_tie_lost": tie_lost,
+            "extra_modules": extra_report,
             "impl_line_coverage": cov.report(linecov.anchors_of(C.VERIF, pid)) if cov.hits else None,
             "exhaustive": False,
         },
